@@ -99,3 +99,10 @@ Proof. vm_compute. split; reflexivity. Qed.
 (* proxy_handler.go writeResponse: whatever error ends the body copy, the handler aborts *)
 Lemma ob_handler_copy_error_aborts : hw_copy_error_aborts = true.
 Proof. vm_compute. reflexivity. Qed.
+
+(* proxy_conn.go handle(): the request body is closed (drained) on every path out of handle() *)
+Lemma ob_handle_closes_request_body : hd_closes_request_body = true.
+Proof. vm_compute. reflexivity. Qed.
+(* proxy.go modifyErrorResponse keeps the proxy's own Proxy-Authenticate challenge *)
+Lemma ob_error_response_keeps_challenge : er_keeps_challenge = true.
+Proof. vm_compute. reflexivity. Qed.
